@@ -874,6 +874,24 @@ impl State {
                 Some(b) => self.decode_line(&b),
                 None => "bad-op".into(),
             },
+            ["fx", t, h] => match unhex(h) {
+                Some(b) => fx_line(t, &b).unwrap_or_else(|| "bad-op".into()),
+                None => "bad-op".into(),
+            },
+            ["sweep", t, lo, n, blk] => {
+                let (lo, n, blk) = match (lo.parse::<u64>().ok(), n.parse::<u64>().ok(), blk.parse::<u64>().ok()) {
+                    (Some(a), Some(b), Some(c)) if c > 0 => (a, b, c),
+                    _ => return "bad-op".into(),
+                };
+                let mut sums = vec![];
+                for k in 0..n / blk {
+                    match sweep_fold(t, lo + k * blk, blk) {
+                        Some(h) => sums.push(h.to_string()),
+                        None => return "bad-op".into(),
+                    }
+                }
+                sums.join(",")
+            }
             ["decq", h] => match unhex(h) {
                 Some(b) => self.decode_line(&b).split(' ').next().unwrap().to_string(),
                 None => "bad-op".into(),
@@ -881,4 +899,106 @@ impl State {
             _ => "bad-op".into(),
         }
     }
+}
+
+/* ---------- C17: fixed-size types, one value at a time and folded over ranges ---------- */
+
+/// decode the octets with the type's own `decode_from`, observe through the public accessor, encode back
+/// returns (observable text, observable as a number, re-encoded octets or None on error)
+fn fx_one(t: &str, b: &[u8]) -> Option<(String, u64, Option<Vec<u8>>)> {
+    let mut c = Cursor::new(b);
+    let mut e = Vec::new();
+    Some(match t {
+        "u32" => {
+            let v = Unsigned32::decode_from(&mut c).ok()?;
+            let r = v.encode_to(&mut e).ok().map(|_| e);
+            (format!("u32:{}", v.value()), v.value() as u64, r)
+        }
+        "i32" => {
+            let v = Integer32::decode_from(&mut c).ok()?;
+            let r = v.encode_to(&mut e).ok().map(|_| e);
+            (format!("i32:{}", v.value()), v.value() as i64 as u64, r)
+        }
+        "enum" => {
+            let v = Enumerated::decode_from(&mut c).ok()?;
+            let r = v.encode_to(&mut e).ok().map(|_| e);
+            (format!("enum:{}", v.value()), v.value() as i64 as u64, r)
+        }
+        "f32" => {
+            let v = Float32::decode_from(&mut c).ok()?;
+            let r = v.encode_to(&mut e).ok().map(|_| e);
+            (format!("f32:{:08x}", v.value().to_bits()), v.value().to_bits() as u64, r)
+        }
+        "time" => {
+            let v = Time::decode_from(&mut c).ok()?;
+            let r = v.encode_to(&mut e).ok().map(|_| e);
+            let ts = v.value().timestamp();
+            (format!("time:{}.{}", ts, v.value().timestamp_subsec_nanos()), ts as u64, r)
+        }
+        "ipv4" => {
+            let v = IPv4::decode_from(&mut c).ok()?;
+            let r = v.encode_to(&mut e).ok().map(|_| e);
+            let shown = format!("{}", v);
+            let num = shown.parse::<Ipv4Addr>().map(|x| u32::from(x) as u64).unwrap_or(u64::MAX);
+            (format!("ipv4:{}", shown), num, r)
+        }
+        "u64" => {
+            let v = Unsigned64::decode_from(&mut c).ok()?;
+            let r = v.encode_to(&mut e).ok().map(|_| e);
+            (format!("u64:{}", v.value()), v.value(), r)
+        }
+        "i64" => {
+            let v = Integer64::decode_from(&mut c).ok()?;
+            let r = v.encode_to(&mut e).ok().map(|_| e);
+            (format!("i64:{}", v.value()), v.value() as u64, r)
+        }
+        "f64" => {
+            let v = Float64::decode_from(&mut c).ok()?;
+            let r = v.encode_to(&mut e).ok().map(|_| e);
+            (format!("f64:{:016x}", v.value().to_bits()), v.value().to_bits(), r)
+        }
+        "ipv6" => {
+            let v = IPv6::decode_from(&mut c).ok()?;
+            let r = v.encode_to(&mut e).ok().map(|_| e);
+            let shown = format!("{}", v);
+            let oct = shown.parse::<Ipv6Addr>().map(|x| hex(&x.octets())).unwrap_or_else(|_| "?".into());
+            (format!("ipv6:{}", oct), 0, r)
+        }
+        _ => return None,
+    })
+}
+
+fn fx_line(t: &str, b: &[u8]) -> Option<String> {
+    let want = match t {
+        "u64" | "i64" | "f64" => 8,
+        "ipv6" => 16,
+        _ => 4,
+    };
+    if b.len() != want {
+        return None;
+    }
+    let (shown, _, re) = fx_one(t, b)?;
+    Some(format!(
+        "{} {}",
+        shown,
+        match re {
+            Some(e) => hexd(&e),
+            None => "encerr".into(),
+        }
+    ))
+}
+
+fn sweep_fold(t: &str, lo: u64, n: u64) -> Option<u64> {
+    const K: u64 = 6364136223846793005;
+    let mut h: u64 = 0;
+    for v in lo..lo + n {
+        let b = (v as u32).to_be_bytes();
+        let (_, num, re) = fx_one(t, &b)?;
+        let enum_ = match re {
+            Some(e) => e.iter().fold(0u64, |a, x| a.wrapping_mul(256).wrapping_add(*x as u64)),
+            None => 0xdeadbeef,
+        };
+        h = h.wrapping_mul(K).wrapping_add(num).wrapping_mul(K).wrapping_add(enum_);
+    }
+    Some(h)
 }
